@@ -171,3 +171,64 @@ class NegoEval:
             reply = (rr[0].get("scu_role"), rr[0].get("scp_role"), rr[0].get("sop_class_uid"))
         first = dict(result=c.get("result"), as_scu=c.get("as_scu"), as_scp=c.get("as_scp"), reply=reply, ts=list(c.get("transfer_syntax")), cid=1, ab=c.get("abstract_syntax"))
         return first, by_id[3].get("result")
+
+
+def eval_context_partition(repo: Repo, fn: ast.FunctionDef, cls_name: str = "ACSE"):
+    """How `fn` (an ACSE negotiation method) files the negotiated contexts into the association's
+    `_accepted_cx` / `_rejected_cx`, decided by evaluating the statements that do it - inline, or in a helper
+    method they are delegated to - on contexts with the result codes 0..4, an undefined code (5, 255) and a
+    missing one (None). -> list of problems (empty when every context lands in exactly one table, the accepted
+    one exactly for result 0, keyed by its own id), the number of assignment sites found"""
+    mod = repo.mod("acse")
+    ci = mod.classes.get(cls_name)
+    sites = []  # (statements to run, name of the list variable)
+    for st in walk_no_nested(fn):
+        if isinstance(st, ast.Assign) and norm(st.targets[0]) == "self.assoc._accepted_cx":
+            src = None
+            for c in ast.walk(st.value):
+                if isinstance(c, ast.comprehension) and isinstance(c.iter, ast.Name):
+                    src = c.iter.id
+            blk = None
+            for p in ast.walk(fn):
+                for f_ in ("body", "orelse", "finalbody"):
+                    b = getattr(p, f_, None)
+                    if isinstance(b, list) and any(x is st for x in b):
+                        blk = b
+            if src is None or blk is None:
+                raise Unsupported(f"{fn.name}: `_accepted_cx = ...` is not a comprehension over a local list")
+            i = blk.index(st)
+            run = [s_ for s_ in blk[max(0, i - 1): i + 3] if isinstance(s_, ast.Assign) and norm(s_.targets[0]) in ("self.assoc._accepted_cx", "self.assoc._rejected_cx")]
+            sites.append(("inline", run, src, st))
+        if isinstance(st, ast.Expr) and isinstance(st.value, ast.Call) and isinstance(st.value.func, ast.Attribute) and norm(st.value.func.value) == "self" and ci is not None:
+            h = ci.methods.get(st.value.func.attr)
+            if h is not None and any(isinstance(a, ast.Assign) and norm(a.targets[0]).endswith("._accepted_cx") for a in ast.walk(h)) and len(st.value.args) == 1:
+                sites.append(("helper", h, None, st))
+    problems = []
+    codes = [0, 1, 2, 3, 4, 5, 255, None]
+    for kind, what, src, st in sites:
+        cxs = [Obj("PresentationContext", {"context_id": 2 * k + 1, "result": r, "abstract_syntax": f"A{k}", "transfer_syntax": ["T"]}) for k, r in enumerate(codes)]
+        assoc = Obj("Association", {"_accepted_cx": None, "_rejected_cx": None})
+        me = Obj(cls_name, {"assoc": assoc})
+        it = Interp({})
+        try:
+            if kind == "inline":
+                it.run(what, {"self": me, src: cxs})
+            else:
+                params = [a.arg for a in what.args.args]
+                it.call_function(what, dict(zip(params, [me, cxs])))
+        except Raised as r_:
+            problems.append((st, f"raises {r_.kind} for contexts with results {codes}"))
+            continue
+        acc, rej = assoc.get("_accepted_cx"), assoc.get("_rejected_cx")
+        if not isinstance(acc, dict) or not isinstance(rej, list):
+            problems.append((st, "the accepted table is not a dict / the rejected one not a list after the assignment"))
+            continue
+        for cx in cxs:
+            r, cid = cx.get("result"), cx.get("context_id")
+            in_acc = any(v is cx for v in acc.values())
+            in_rej = any(v is cx for v in rej)
+            if r == 0 and not (in_acc and not in_rej and acc.get(cid) is cx):
+                problems.append((st, f"a context with result 0 (accepted) and id {cid} is {'not in the accepted table under its own id' if not in_acc or acc.get(cid) is not cx else 'also listed as rejected'}"))
+            if r != 0 and (in_acc or not in_rej):
+                problems.append((st, f"a context whose result is {r!r} ({'no result decoded' if r is None else 'a rejection / undefined code'}) is {'filed as accepted' if in_acc else 'in neither table'}"))
+    return problems, len(sites)
